@@ -143,6 +143,35 @@ def main():
                         path = os.path.join(d, "s%d.pkl" % ci); joblib.dump(obj, path, compress=arg, protocol=case["protocol"])
                         r = joblib.load(path) if target == "path" else joblib.load(open(path, "rb", buffering=0)); os.unlink(path)
                     if not (type(r) is type(obj) and r == obj): rec["problems"].append("size-class payload differs after the round trip via %s" % target)
+                if case.get("embedded"):
+                    # the dump does not start at offset 0 of its file object: it follows bytes written by the caller, and - without
+                    # compression, where nothing reads ahead - another dump follows it
+                    import tempfile
+                    header = b"HEADER-BYTES-OF-THE-CALLER" * case["embedded"]
+                    second = {"second": [1, 2.5, None]}
+                    plain = arg in (0, False)
+
+                    def fill(fh):
+                        fh.write(header); joblib.dump(obj, fh, compress=arg, protocol=case["protocol"])
+                        if plain: joblib.dump(second, fh, compress=arg, protocol=case["protocol"])
+                    targets = []
+                    tf = tempfile.TemporaryFile(); fill(tf); targets.append(("buffered file", tf))
+                    bio = io.BytesIO(); fill(bio); targets.append(("in-memory buffer", bio))
+                    rp = os.path.join(d, "e%d.bin" % ci)
+                    with open(rp, "wb") as fh: fill(fh)
+                    targets.append(("unbuffered file", open(rp, "rb", buffering=0)))
+                    for tname, fh in targets:
+                        try:
+                            fh.seek(len(header)); r = joblib.load(fh)
+                            if not (type(r) is type(obj) and r == obj): rec["problems"].append("dump placed after %d bytes of a %s: load at that offset returns %r" % (len(header), tname, r if len(repr(r)) < 60 else type(r)))
+                            elif plain:
+                                r2 = joblib.load(fh)
+                                if r2 != second: rec["problems"].append("second of two dumps in one %s: load returns %r" % (tname, r2 if len(repr(r2)) < 60 else type(r2)))
+                        except Exception as ex:
+                            rec["problems"].append("dump placed after %d bytes of a %s: load raised %s" % (len(header), tname, repr(ex)[:100]))
+                        finally:
+                            fh.close()
+                    os.unlink(rp)
         except Exception as ex:
             rec["problems"].append("raised %s" % repr(ex)[:200])
         out.append(rec)
